@@ -56,7 +56,7 @@ Local Notation is_ffi := (Verify.is_ffi metas).
 Local Notation is_entry := (Verify.is_entry metas).
 Local Notation handler := (Verify.handler exct).
 Local Notation handler_ok := (Verify.handler_ok exct certs).
-Local Notation check_norm := (Verify.check_norm exct metas entry certs).
+Local Notation check_norm := (Verify.check_norm prog exct metas entry certs).
 Local Notation check_exc := (Verify.check_exc exct metas certs).
 Local Notation cert_at := (VerifyInv.cert_at certs).
 Local Notation frame_ok := (VerifyInv.frame_ok exct metas certs).
@@ -458,7 +458,7 @@ Proof.
     band3 H2 A B C. apply Nat.eqb_eq in A, B. apply list_eqb_eq in C. subst f' d' os'.
     rewrite Nat.add_1_r in Ec.
     eapply step_AMark; eauto using succ_ok_at.
-  - (* ACall *) band3 HC H1 H2 H3. apply Nat.leb_le in H1.
+  - (* ACall *) apply andb_true_iff in HC. destruct HC as [HC _]. band3 HC H1 H2 H3. apply Nat.leb_le in H1.
     eapply step_ACall; eauto. intros ->. band2 H3 A B. exact B.
   - (* ARet *) band4 HC H1 H2 H3 H4. destruct os; [|discriminate]. apply Nat.eqb_eq in H2. subst d.
     apply eqb_prop in H3. eapply step_ARet; eauto.
